@@ -272,6 +272,15 @@ class Scheduler:
             if self.abort:
                 raise ExecutionAbort()
 
+    def _stuck_verdict(self):
+        """nothing can run: a deadlock - unless somebody merely sleeps past the time horizon of the harness (then the
+        execution was cut by the horizon, which is not an observation about the code)"""
+        if self.time_horizon is not None:
+            for t in self.threads:
+                if t.started and not t.finished and t.wake is not None and t.wake > self.time_horizon and t.is_main:
+                    return "time-horizon"
+        return "deadlock"
+
     def _teardown(self, verdict):
         if self.verdict is None:
             self.verdict = verdict
@@ -326,7 +335,7 @@ class Scheduler:
             while True:
                 nxt = self._dispatch(False, label)
                 if nxt is None:
-                    self._teardown("deadlock")
+                    self._teardown(self._stuck_verdict())
                     raise ExecutionAbort()
                 self._handover(nxt, True)
                 if pred():
@@ -351,7 +360,7 @@ class Scheduler:
             while cur.wake > self.now:
                 nxt = self._dispatch(False, "sleeping")
                 if nxt is None:
-                    self._teardown("deadlock")
+                    self._teardown(self._stuck_verdict())
                     raise ExecutionAbort()
                 self._handover(nxt, True)
         finally:
@@ -394,7 +403,7 @@ class Scheduler:
                 try:
                     nxt = self._dispatch(False, "finish")
                     if nxt is None:
-                        self._teardown("deadlock")
+                        self._teardown(self._stuck_verdict())
                     else:
                         self._handover(nxt, False)
                 except ExecutionAbort:
